@@ -30,10 +30,16 @@ def rotate_instance(I, M, d):
     return J
 
 
-def lib_eval_rotated(I, J, C, what, prepared_first=False):
-    """library values in the rotated frame; ham_data is rotated with ham.rotate_orbs"""
+def lib_eval_rotated(I, J, C, what, prepared_first=False, anti=None):
+    """library values in the rotated frame; ham_data is rotated with ham.rotate_orbs.
+    anti: antisymmetric matrices (one per spin) added to the STORED one-body matrices before anything else - every
+    orbital-based trial takes the symmetric part of the stored matrix when it prepares its intermediates, so the
+    measured values must stay those of the symmetric Hamiltonian, in every basis"""
     import jax.numpy as jnp
     trial, wd, hd, ham = wf.build_lib(J)
+    if anti is not None:
+        hd = dict(hd)
+        hd["h1"] = hd["h1"] + jnp.array(np.asarray(anti) * 1.0)
     if prepared_first:
         # a Hamiltonian that already carries measurement intermediates (of the UNROTATED trial) is rotated and then
         # prepared again for the rotated trial: stale intermediates must not survive
@@ -69,7 +75,9 @@ def run(chk: Check):
                 "energy and force bias of an instance (WfOracle.tla) must be returned by the library when trial orbitals and "
                 "walkers are rotated by an exactly orthogonal C (signed permutations, Hadamard/2, (1,2,2)/3, (3,4,5)/5 blocks) "
                 "and the Hamiltonian is rotated by the library's own routine; (c) spec theorem: for signed permutations the "
-                "rotated problem, evaluated by TLC itself, has the same energy/force bias and the same overlap; "
+                "rotated problem, evaluated by TLC itself, has the same energy/force bias and the same overlap; (d) the same "
+                "energies when the STORED one-body matrices carry an extra antisymmetric part (only the symmetric part is "
+                "physical; every orbital-based trial symmetrises when it prepares its intermediates); "
                 "case = (instance, walker, observable)")
     chk.assumptions += ["orthogonal matrices are restricted to exactly representable ones (a polynomial identity that holds on "
                         "them and fails for a wrong index/transposition is an O(1) discrepancy)", "tolerance 1e-9 relative"]
@@ -171,6 +179,12 @@ def run(chk: Check):
         for what in ("ov", "e", "fb"):
             got = lib_eval_rotated(I, J, M / d, what)
             wfcheck.compare(chk, I, ex, got, what, wfcheck.TOL64, "rotated", tag=f"/rotated(d={d})")
+            if what == "e":
+                # a non-symmetric stored one-body matrix (h1 + A, A antisymmetric, different for the two spins): only its
+                # symmetric part is physical; rotating it and preparing the trial again must give the same energies
+                A = np.array([np.triu(x, 1) - np.triu(x, 1).T for x in wf.rand_int(rng, (2, I["norb"], I["norb"]), -3, 3)])
+                got = lib_eval_rotated(I, J, M / d, what, anti=A)
+                wfcheck.compare(chk, I, ex, got, what, wfcheck.TOL64, "rotated-nonsymmetric-h1", tag=f"/h1+A,rotated(d={d})")
             if what != "ov" and I["id"] % 2 == 0:
                 got = lib_eval_rotated(I, J, M / d, what, prepared_first=True)
                 wfcheck.compare(chk, I, ex, got, what, wfcheck.TOL64, "rotated-after-prepare", tag=f"/prepared,rotated(d={d}),prepared")
